@@ -128,6 +128,40 @@ void qx_harness(void)
                 clause='the real hash table agrees with an insertion-ordered set model after every operation (membership, key<->index, live count, iteration order), without leaks')
 
 
+HIT = 'struct HLItem_T__StringView__char'
+FN_GEN = HT + '_generateHash'
+
+
+def generate_hash_job(cap=4):
+    """bounded stand-in: the real HashTable::generateHash on every table of up to 4 slots (capacity 1, 2 or 4), symbolic hashes (0 = removed slot),
+    arbitrary stale Next links; afterwards every live slot is reachable from its bucket head by following Next - which is what lookups by key rely on after
+    a Sort, a Resize or a Compress"""
+    extra = """
+static _Bool qx_reach(struct %(HT)s *t, unsigned int k)
+{
+  %(HIT)s *st = (%(HIT)s *)(t->hashTable_ + t->capacity_);
+  unsigned int cur = t->hashTable_[st[k].Hash & (t->capacity_ - 1u)];
+  for (unsigned int n = 0; n < 5; n++) {
+    if (cur == 0 || cur > t->index_) return 0;
+    if (cur == k + 1u) return 1;
+    cur = st[cur - 1u].Next;
+  }
+  return 0;
+}
+""" % dict(HT=HT, HIT=HIT)
+    hs = ['__CPROVER_assume(o_self.capacity_ == 1 || o_self.capacity_ == 2 || o_self.capacity_ == 4 || o_self.capacity_ == 8); __CPROVER_assume(o_self.index_ <= o_self.capacity_);',
+          'o_self.hashTable_ = (unsigned int *)malloc(o_self.capacity_ * (sizeof(unsigned int) + sizeof(%s))); __builtin_memset(o_self.hashTable_, 0, o_self.capacity_ * (sizeof(unsigned int) + sizeof(%s)));' % (HIT, HIT),
+          '{ %s *qs = (%s *)(o_self.hashTable_ + o_self.capacity_); for (unsigned int qi = 0; qi < o_self.index_; qi++) { qs[qi].Hash = qx_hash[qi]; qs[qi].Next = qx_next[qi]; } }' % (HIT, HIT)]
+    spec = dict(requires=['g_k < self->index_'], harness_setup=hs, native_both=True,
+                obj_buffers=[('qx_hash', 'o_self.index_', 'unsigned int'), ('qx_next', 'o_self.index_', 'unsigned int')],
+                ensures=['((%s *)(self->hashTable_ + self->capacity_))[g_k].Hash == 0 || qx_reach(self, g_k)' % HIT], assigns=[])
+    return dict(name='HashTable.generateHash.reachability.capacity%d' % cap, unit=HUNIT, fn=FN_GEN, roots=[QHT + '::generateHash'], specs={FN_GEN: spec}, mode='harness',
+                ghosts=[('unsigned int', 'g_k')], pre='static unsigned int *qx_hash; static unsigned int *qx_next;\n', extra=extra, fixed={'o_self.capacity_': cap},
+                harness_K=4, harness_unwind=7, cex_K=4, cex_unwind=7, solver='cadical', timeout=600, objbits=9, must_have=['assertion'],
+                bounded='every table of capacity %d with 0..%d slots in use,' % (cap, min(cap, 4)) + ' all hash values (0 marks a removed slot), arbitrary stale Next links',
+                clause='after generateHash every live slot (hash not 0) is reachable from its bucket head along Next (so a key is found again after Sort / Resize / Compress rebuilt the chains)')
+
+
 _jobs_c13 = jobs
 
 
@@ -135,4 +169,4 @@ def jobs(tier):
     # the bounded map-model scenarios below do not fit: CBMC runs out of memory (14 GB) while converting the SSA of even one five-operation
     # scenario of the real HashTable code (quicksort recursion, chain walks, re-hash).  Kept for the record, not run.
     unfinished = [map_model_job(n, ops) for n, ops in SCENARIOS.items()]
-    return _jobs_c13(tier)
+    return _jobs_c13(tier) + [generate_hash_job(c) for c in (1, 2, 4, 8)]
